@@ -14,7 +14,7 @@ import (
 
 func init() {
 	props["C13"] = &prop{gen: genC13, eval: evalC13, pure: true, par: func(string) bool { return true }}
-	props["C02"] = &prop{gen: genC02, eval: evalC02, timeout: 4 * time.Second, pure: true, par: func(string) bool { return true }}
+	props["C02"] = &prop{gen: genC02, eval: evalC02, timeout: 5 * time.Second, pure: true, par: func(string) bool { return true }}
 }
 
 // ---------- C13: observers are pure, results are copies ----------
